@@ -146,8 +146,11 @@ impl Model {
     }
 }
 
+thread_local! { static VIA_MAP: std::cell::Cell<bool> = std::cell::Cell::new(false); }
 fn real_snapshot(s: &Snapshotter) -> Vec<String> {
-    s.snapshot().into_vec().into_iter().map(|(ck, unit, desc, val)| {
+    // the blocks part reads snapshots through `into_hashmap()` (order-insensitive comparison), everything else through `into_vec()`
+    let entries: Vec<_> = if VIA_MAP.with(|v| v.get()) { s.snapshot().into_hashmap().into_iter().map(|(k, (u, d, v))| (k, u, d, v)).collect() } else { s.snapshot().into_vec() };
+    entries.into_iter().map(|(ck, unit, desc, val)| {
         let k = match ck.kind() {
             MetricKind::Counter => K::C,
             MetricKind::Gauge => K::G,
@@ -203,6 +206,7 @@ fn e3(ctx: &Ctx, res: &mut PartResult, depth: usize, first: Option<usize>, block
     res.engine = "E3 bounded exhaustive op sequences on the real DebuggingRecorder vs reference".into();
     vseq::quiet_panics();
     let alpha = if blocks { block_alphabet() } else { alphabet() };
+    VIA_MAP.with(|v| v.set(blocks));
     let mut states = vseq::States::new();
     let mut fails: Vec<(String, String, Vec<usize>)> = Vec::new();
     let mut transitions = 0u64;
@@ -224,8 +228,12 @@ fn e3(ctx: &Ctx, res: &mut PartResult, depth: usize, first: Option<usize>, block
             }
             m.apply(op);
             if matches!(op, Op::Snapshot) {
-                let want = m.snapshot();
-                let got = real_snapshot(&snap);
+                let mut want = m.snapshot();
+                let mut got = real_snapshot(&snap);
+                if blocks {
+                    want.sort();
+                    got.sort();
+                }
                 states.add(&got);
                 if got != want {
                     let sig = if got.len() != want.len() || got.iter().map(|g| g.split('|').take(2).collect::<Vec<_>>()).ne(want.iter().map(|g| g.split('|').take(2).collect::<Vec<_>>())) {
@@ -357,6 +365,44 @@ fn e1_two_registrants(ctx: &Ctx, res: &mut PartResult, pb: usize) {
     vsched::explore(&scn, &Cfg { max_bound: pb, horizon: 20000 }, ctx, res);
 }
 
+/// two snapshotting threads at once: each recorded value still appears in exactly one snapshot
+fn e1_two_snapshotters(ctx: &Ctx, res: &mut PartResult, pb: usize) {
+    let scn = Scenario {
+        name: "recorder thread (histogram record(1), record(2)) || snapshotter A (1 snapshot) || snapshotter B (1 snapshot), then a final snapshot".into(),
+        setup: Box::new(|| {
+            let rec = DebuggingRecorder::new();
+            let snap = rec.snapshotter();
+            S { rec, snap, log: Log::new() }
+        }),
+        bodies: vec![
+            body(|s: &S| {
+                let h = s.rec.register_histogram(&mk_key(0), &META);
+                h.record(1.0);
+                h.record(2.0);
+            }),
+            body(|s: &S| {
+                s.log.push(real_snapshot(&s.snap));
+            }),
+            body(|s: &S| {
+                s.log.push(real_snapshot(&s.rec.snapshotter()));
+            }),
+        ],
+        check: Box::new(|s, _| {
+            s.log.push(real_snapshot(&s.snap));
+            let snaps = s.log.get();
+            let all: String = snaps.iter().flatten().filter(|l| l.starts_with("H|")).map(|l| l.split('|').nth(4).unwrap_or("").to_string()).collect::<Vec<_>>().join(" ");
+            let one = format!("{:x}", 1.0f64.to_bits());
+            let two = format!("{:x}", 2.0f64.to_bits());
+            if all.matches(&one).count() != 1 || all.matches(&two).count() != 1 {
+                return fail("histogram-value-not-in-exactly-one-snapshot", format!("recorded 1.0 and 2.0; histogram values over the three snapshots (two of them concurrent): {:?}", all));
+            }
+            Verdict::Ok(all)
+        }),
+        termination_promised: true,
+    };
+    vsched::explore(&scn, &Cfg { max_bound: pb, horizon: 20000 }, ctx, res);
+}
+
 fn e1(ctx: &Ctx, res: &mut PartResult, pb: usize) {
     let scn = Scenario {
         name: "recorder thread (histogram record(1), record(2), counter inc(3)) || snapshotter (snapshot x2), then a final snapshot".into(),
@@ -426,6 +472,7 @@ fn parts(ctx: &Ctx) -> Vec<PartSpec> {
         v.push(PartSpec::new("e3-blocks-d4", json!({"depth": 4, "blocks": true})).budget(50.0));
         v.push(PartSpec::new("e1-record-vs-snapshot-pb2", json!({"e1": 2})).cpus("0"));
         v.push(PartSpec::new("e1-two-registrants-pb2", json!({"e1": 2, "two": true})).cpus("0"));
+        v.push(PartSpec::new("e1-two-snapshotters-pb2", json!({"e1": 2, "snaps": true})).cpus("0"));
     } else {
         for f in 0..alphabet().len() {
             v.push(PartSpec::new(&format!("e3-d6-first{}", f), json!({"depth": 6, "first": f})).budget(2400.0));
@@ -433,6 +480,7 @@ fn parts(ctx: &Ctx) -> Vec<PartSpec> {
         v.push(PartSpec::new("e3-blocks-d6", json!({"depth": 6, "blocks": true})).budget(2400.0));
         v.push(PartSpec::new("e1-record-vs-snapshot-pb4", json!({"e1": 4})).cpus("0").budget(1500.0));
         v.push(PartSpec::new("e1-two-registrants-pb3", json!({"e1": 3, "two": true})).cpus("1").budget(1500.0));
+        v.push(PartSpec::new("e1-two-snapshotters-pb3", json!({"e1": 3, "snaps": true})).cpus("2").budget(1500.0));
     }
     v
 }
@@ -442,7 +490,9 @@ fn run(ctx: &Ctx, spec: &PartSpec) -> PartResult {
     if spec.arg["local"].as_bool() == Some(true) {
         local_threads(&mut res);
     } else if let Some(pb) = spec.arg["e1"].as_u64() {
-        if spec.arg["two"].as_bool() == Some(true) {
+        if spec.arg["snaps"].as_bool() == Some(true) {
+            e1_two_snapshotters(ctx, &mut res, pb as usize);
+        } else if spec.arg["two"].as_bool() == Some(true) {
             e1_two_registrants(ctx, &mut res, pb as usize);
         } else {
             e1(ctx, &mut res, pb as usize);
